@@ -872,7 +872,14 @@ def translate_function(E, f):
                     if op == 'invoke':
                         while p.peek()[1] != 'to': p.next()
                         p.expect('to'); p.expect('label'); normal = p.next()[1]; p.expect('unwind'); p.expect('label'); unwind = p.next()[1]
-                    stmts = emit_call(E, f, env, ins, rty, callee, args, decls, retzero)
+                    if callee[0] == '%':
+                        # indirect call (virtual dispatch / function pointer): refused at run time, not approximated
+                        stmts = ['__CPROVER_assert(0, "indirect call reached in %s: virtual dispatch is not modelled"); __CPROVER_assume(0);' % cname(f.name)]
+                        if ins.res is not None and not isinstance(rty, VoidTy):
+                            env.types[ins.res] = rty; decls.append((ins.res, rty))
+                        E.indirect = getattr(E, 'indirect', 0) + 1
+                    else:
+                        stmts = emit_call(E, f, env, ins, rty, callee, args, decls, retzero)
                     body.extend(stmts)
                     if op == 'invoke':
                         body.append('if (__verif_exc) %s else %s' % (edge(lbl, unwind), edge(lbl, normal)))
